@@ -139,8 +139,22 @@ def client_answers(ctx):
     c10.reduced_leg(ctx, 1500 if ctx.quick else 6000, "client_answers_leg")
 
 
+def servers_are_stopped(ctx):
+    """Runner.tla releases a server slot when the server process is gone ("never more than --max-servers processes
+    alive", "every started server is stopped"); that a process is gone when the runner's process handle says it is
+    done - also for a server that ignores the request to stop - is Process.tla's GoneWhenDone, bound here on the real
+    runCommand with a cooperative and a stubborn peer."""
+    import c11
+    binp = ctx.go_test_bin("internal/app/connectconformance", ["c11", "peers"], race=True)
+    c11.process_protocol(ctx, binp, only=["polite", "stubborn"])
+
+
 def run(ctx):
     q = ctx.quick
+    import g_refine
+    if ctx.replay and g_refine.owns_replay(ctx.replay):   # replay file written by the refinement leg (spec-only)
+        g_refine.leg(ctx)
+        return
     mc = ctx.tlc("MC_Runner", "MC_Runner.cfg", timeout=900)
     ctx.notes["mc_design"] = dict(distinct=mc.distinct, generated=mc.generated)
     g = ctx.tlc("Gen_Runner", "Gen_Runner.cfg", timeout=600)
@@ -211,6 +225,8 @@ def run(ctx):
     if not ctx.replay:
         client_answers(ctx)
         reference_mode(ctx)
+        servers_are_stopped(ctx)
+        g_refine.leg(ctx)   # ServerBatch+frame => Runner(one batch); ClientMux => ClientAbs; Runner projected per batch
     ctx.cov["rule"] = ("real run() in both-commands mode with the reference client and server wrapped as OS processes; scenario = config "
                        "(instance mix incl. TLS / client certs) x corpus slice (--run/--skip) x MaxServers 1..4 x client parallelism x "
                        "server-fails-to-start; every Up/Send/Stop event (synchronously sequenced, address probed by TCP connect) and the "
